@@ -114,6 +114,7 @@ package netpoll
 //@   ensures old(n <= 0) ==> err == nil && unchanged(UnsafeLinkBuffer.length, UnsafeLinkBuffer.read, linkBufferNode.off, UnsafeLinkBuffer.cachePeek)
 //@   ensures old(n > 0 && b.length < n) ==> err != nil && unchanged(UnsafeLinkBuffer.length, UnsafeLinkBuffer.read, linkBufferNode.off, UnsafeLinkBuffer.cachePeek)
 //@   ensures old(n > 0 && b.length >= n) ==> err == nil && wf(b) && rpos(b) == old(rpos(b)) + n && b.length == old(b.length) - n
+//@   ensures err != nil ==> !typeis(err, syscall.Errno) && !typeis(err, *exception)
 //@   ensures forall m *linkBufferNode :: !inb(b, m) ==> m.off == old(m.off)
 //@   modifies b.length, b.read, b.cachePeek, linkBufferNode.off
 //@   loop 1 invariant ack > 0 && inb(b, b.read) && b.read.ord >= old(b.read.ord) && b.read.ord <= b.flush.ord
@@ -451,18 +452,19 @@ package netpoll
 
 //@ func (*UnsafeLinkBuffer).GetBytes
 //@   property C02 C04 C08
-//@   requires wf(b)
+//@   requires wf(b) && (len(p) > 0 ==> p#arr != b.caches#arr)
 //@   ensures wf(b)
 //@   ensures len(vs) >= 0 && (old(len(p)) > 0 ==> len(vs) <= old(len(p)) && vs#arr == p#arr && vs#base == p#base)
 //@   ensures forall k int {vnode[k]}{vs[k]#len}{vs[k]#arr} :: 0 <= k && k < len(vs) ==> vsentry(b, vs, k)
 //@   ensures len(vs) > 0 ==> vpos[0] == rpos(b)
+//@   ensures memframe([]byte, vs)
 //@   ensures forall k int {vpos[k]} :: 0 <= k && k + 1 < len(vs) ==> vpos[k + 1] == vpos[k] + len(vs[k]) && len(vs[k]) > 0
 //@   ensures forall m *linkBufferNode :: m.mode == old(m.mode) || (inb(b, m) && m.mode == old(m.mode) | 2)
 //@   modifies linkBufferNode.mode, mem:[]byte, vnode, vpos
 //@   ghost after store elem#1: vnode[i] = node; vpos[i] = node.sp + node.off
 //@   ghost after store elem#2: vnode[i] = flush; vpos[i] = flush.sp + flush.off
 //@   loop 1 invariant inb(b, node) && node.ord >= b.read.ord && node.ord <= b.flush.ord && n >= 0
-//@   loop 2 invariant 0 <= i && i <= len(p) && p#arr != 0 && (old(len(p)) > 0 ==> sameslice(p, old(p)))
+//@   loop 2 invariant 0 <= i && i <= len(p) && p#arr != 0 && (old(len(p)) > 0 ==> sameslice(p, old(p))) && memframe([]byte, p) && (old(len(p)) == 0 ==> fresh(p))
 //@   loop 2 invariant inb(b, node) && node.ord >= b.read.ord && node.ord <= b.flush.ord
 //@   loop 2 invariant i == 0 ==> node.sp + node.off == rpos(b)
 //@   loop 2 invariant i > 0 ==> node.sp + node.off == vpos[i - 1] + len(p[i - 1])
